@@ -168,7 +168,19 @@ def _one_parser(texts):
     with Project({f"d{i}.puml": t for i, t in enumerate(texts)}) as p:
         shared = PumlParser()
         for i in range(len(texts)):
-            out.append((show(lambda: shared.parse(p.path(f"d{i}.puml"))), show(lambda: PumlParser().parse(p.path(f"d{i}.puml")))))
+            first = show(lambda: shared.parse(p.path(f"d{i}.puml")))
+            # what a caller does with a returned result (here: empties its containers in place) is the caller's business:
+            # the same unchanged file parsed again, by any parser object, gives the same components and relation
+            try:
+                r = PumlParser().parse(p.path(f"d{i}.puml"))
+                r.all_modules.clear()
+                for v in r.dependencies.values():
+                    v.clear()
+                r.dependencies.clear()
+            except Exception:  # noqa: BLE001
+                pass
+            again = show(lambda: PumlParser().parse(p.path(f"d{i}.puml")))
+            out.append((first, again))
     return out
 
 
